@@ -5,7 +5,6 @@ reg(Check(
     coq_targets=["Match/MatchCheck.vo", "Match/MatchProofs.vo", "Props/C06.vo"],
     assumptions=[
         "single goroutine: the trie is only touched under Match.mu (write lock for AddQuery/remove, read lock for Update); lock discipline is not modelled",
-        "subscription prefixes index to at most 20 strings (the capacity path.ToStrings allocates; the model of addSubscription is defined up to that length, which also covers the pre-fix aliasing variant kept for the regression refutations)",
         "notification Update entries are non-nil messages (a nil *gnmi.Update inside the repeated field cannot come off the wire)",
     ],
     modelled=["match/match.go: AddQuery and its removal closure, removeQuery pruning, Update, UpdateOnce, branch.update; subscribe/subscribe.go: UpdateNotification, Server.Update, addSubscription (incl. Go slice/append semantics of the captured query; the pre-fix variants are kept as _gen false); path.ToStrings / CompletePath via Path/PathModel.v; ctree Add/Query via CTree/CTreeModel.v for the snapshot side"],
